@@ -1566,7 +1566,7 @@ func evalSvcE2E(p core.Params) (string, string) {
 	if err != nil {
 		return line, "err-env " + err.Error()
 	}
-	run := &svcRun{}
+	run := &svcRun{maxReqs: 3000} // a run that makes no progress is cut here (the device itself gives up after 1e6 rounds)
 	obs.run = run
 	for _, o := range sc.owners {
 		o.run = run
@@ -1619,6 +1619,7 @@ func evalSvcE2E(p core.Params) (string, string) {
 		time.Sleep(200 * time.Microsecond) // let the library's goroutines of this session wind down
 	}
 	checkE2E(obs)
+	consolidateProbe(obs)
 	var sb strings.Builder
 	switch {
 	case obs.hang:
@@ -1702,8 +1703,9 @@ func checkE2E(o *e2eObs) {
 			sig = "devmod-descriptor-split"
 		case strings.Contains(es, "has not activated module"):
 			sig = "unknown-module-message-fails-to2"
-		case strings.Contains(es, "503"):
+		case strings.Contains(es, "503"), strings.Contains(es, "deadline exceeded") && o.n68 > 500:
 			sig = "to2-no-progress"
+			es += " | the owner's devmod collector never completes (the device did not send its whole module list and does not know), both sides keep exchanging empty service-info messages (the device gives up after 1e6 rounds)"
 		}
 		o.fail(sig, "fdo.TO2 failed after %d DeviceServiceInfo messages: %s", o.n68, svcClip(es, 600))
 		return
@@ -1846,6 +1848,41 @@ func checkE2E(o *e2eObs) {
 	}
 }
 
+// consolidateProbe: in the probes whose owner module 0 completes while the device still answers it, every symptom has one
+// cause (the owner hands a device entry to whatever module has the turn, whatever module the key names).
+func consolidateProbe(o *e2eObs) {
+	sc := o.sc
+	if (sc.class != "late" && sc.class != "fireforget") || len(sc.owners) < 2 || len(o.fails) == 0 {
+		return
+	}
+	m1 := sc.owners[1]
+	var what []string
+	if len(m1.actives) != 1 || !bytes.Equal(m1.actives[0], []byte{0xf5}) {
+		for _, a := range m1.actives {
+			what = append(what, fmt.Sprintf("active=%x", a))
+		}
+	}
+	for _, f := range m1.recv {
+		if len(f.name) >= 2 && f.name[1] == '0' {
+			what = append(what, fmt.Sprintf("%s[%d bytes]", f.name, len(f.data)))
+		}
+	}
+	for _, f := range o.fails {
+		if strings.HasPrefix(f[0], "to2-") || strings.HasPrefix(f[0], "devmod") {
+			return
+		}
+	}
+	detail := fmt.Sprintf("owner module m0 reported completion in the ProduceInfo that sent its last entries; the device's entries for m0 (keys \"m0:...\") arrived with the next "+
+		"DeviceServiceInfo and were handed to owner module m1, which saw: %s", strings.Join(what, ", "))
+	if sc.class == "fireforget" {
+		detail += "; the device has no module m0 and answered m0:active=false, m1 took that for the answer to its own activation"
+		if d := sc.devs["m1"]; d != nil && len(d.trans) == 0 {
+			detail += " and never activated the device's m1"
+		}
+	}
+	o.fails = [][2]string{{"delivered-to-wrong-module", detail}}
+}
+
 func registerSvcE2EKinds(c *core.Ctx) {
 	c.Register(&core.Kind{Name: "svc.e2e", NoModel: true, Eval: evalSvcE2E})
 }
@@ -1875,22 +1912,21 @@ func runC16(c *core.Ctx) {
 	runC16E2E(c)
 }
 
+// fixedNames: n distinct names of l bytes (the index in base 62, padded on the left).
 func fixedNames(n, l int) []string {
-	out := make([]string, n)
-	for i := range out {
-		s := fmt.Sprintf("%d", i)
-		for len(s) < l {
-			s = "a" + s
+	const alpha = "abcdefghijklmnopqrstuvwxyz0123456789ABCDEFGHIJKLMNOPQRSTUVWXYZ"
+	out := make([]string, 0, n)
+	for i := 0; i < n; i++ {
+		b := make([]byte, l)
+		x := i
+		for k := l - 1; k >= 0; k-- {
+			b[k] = alpha[x%62]
+			x /= 62
 		}
-		if len(s) > l { // short names: base-36 style from a large alphabet
-			s = ""
-			x := i
-			for k := 0; k < l; k++ {
-				s = string("abcdefghijklmnopqrstuvwxyz0123456789ABCDEFGHIJKLMNOPQRSTUVWXYZ"[x%62]) + s
-				x /= 62
-			}
+		if x > 0 { // more names than there are of this length
+			break
 		}
-		out[i] = s
+		out = append(out, string(b))
 	}
 	return out
 }
@@ -1902,14 +1938,14 @@ func runC16Split(c *core.Ctx) {
 		o := c.Do("devmod.split", p, meta)
 		obs := lastSplit
 		if strings.HasPrefix(o.Impl, "panic") || o.Impl == "hang" {
-			c.Fail(o.Impl+"@Devmod.Write", core.PanicText, "devmod.split", p, o)
+			svcFail(c, o.Impl+"@Devmod.Write", core.PanicText, "devmod.split", p, o)
 			return
 		}
 		if obs != nil && obs.Lost {
 			c.Count("split_outcome", "err-lost")
 			if !lostReported {
 				lostReported = true
-				c.Fail("devmod-write-error-lost", fmt.Sprintf("MTU %d, %d modules: Devmod.Write fails at the first name (it does not fit alone) but the reader of the pipe sees a clean end after "+
+				svcFail(c, "devmod-write-error-lost", fmt.Sprintf("MTU %d, %d modules: Devmod.Write fails at the first name (it does not fit alone) but the reader of the pipe sees a clean end after "+
 					"devmod:nummodules=%d: no devmod:modules entry and no error", mtu, len(keys), obs.Num), "devmod.split", p, o)
 			}
 			return
@@ -1923,13 +1959,13 @@ func runC16Split(c *core.Ctx) {
 		next := 0
 		for _, ch := range obs.Chunks {
 			if ch.Len != len(ch.Modules) || ch.Start != next {
-				c.Fail("chunk-header-wrong", fmt.Sprintf("chunk start %d len %d with %d names, expected start %d", ch.Start, ch.Len, len(ch.Modules), next), "devmod.split", p, o)
+				svcFail(c, "chunk-header-wrong", fmt.Sprintf("chunk start %d len %d with %d names, expected start %d", ch.Start, ch.Len, len(ch.Modules), next), "devmod.split", p, o)
 			}
 			next += len(ch.Modules)
 			all = append(all, ch.Modules...)
 		}
 		if want := listedNames(keys); !sameMultiset(all, want) || obs.Num != len(want) {
-			c.Fail("modules-lost", fmt.Sprintf("device modules %d (+devmod), nummodules %d, names in the chunks %d", len(keys), obs.Num, len(all)), "devmod.split", p, o)
+			svcFail(c, "modules-lost", fmt.Sprintf("device modules %d (+devmod), nummodules %d, names in the chunks %d", len(keys), obs.Num, len(all)), "devmod.split", p, o)
 		}
 	}
 	rng := c.Rng
@@ -2087,9 +2123,9 @@ func runC16Collect(c *core.Ctx) {
 		o := c.Do("devmod.collect", p, meta)
 		switch {
 		case strings.HasPrefix(o.Impl, "err-"):
-			c.Fail("harness:"+svcFirst(o.Impl), o.Impl, "devmod.collect", p, o)
+			svcFail(c, "harness:"+svcFirst(o.Impl), o.Impl, "devmod.collect", p, o)
 		case meta == "collect-honest" && !strings.HasPrefix(o.Impl, "ok T"):
-			c.Fail("devmod-modules-incomplete:collect", "an honest chunk sequence was not collected completely: "+o.Impl+" "+lastCollectErr, "devmod.collect", p, o)
+			svcFail(c, "devmod-modules-incomplete:collect", "an honest chunk sequence was not collected completely: "+o.Impl+" "+lastCollectErr, "devmod.collect", p, o)
 		}
 	}
 }
@@ -2103,14 +2139,14 @@ func runC16Sequence(c *core.Ctx) {
 		}
 		o := c.Do("svc.sequence", p, meta)
 		if strings.HasPrefix(o.Impl, "err-") {
-			c.Fail("harness:"+svcFirst(o.Impl), o.Impl, "svc.sequence", p, o)
+			svcFail(c, "harness:"+svcFirst(o.Impl), o.Impl, "svc.sequence", p, o)
 			return
 		}
 		if o.Impl != o.Model && lastSeq != nil && lastSeq.FirstErr != "" {
 			c.Note("svc.sequence %s / %s: first refusal %s", p["plan"], p["flags"], lastSeq.FirstErr)
 		}
 		if lastSeq != nil && lastSeq.KeyMismatch != "" {
-			c.Fail("module-order", lastSeq.KeyMismatch, "svc.sequence", p, o)
+			svcFail(c, "module-order", lastSeq.KeyMismatch, "svc.sequence", p, o)
 		}
 		// the conclusion on the implementation's own trace: producers form a prefix of 0^k0 1^k1 ..., IsDone at most once and
 		// only with the last completion
@@ -2132,21 +2168,21 @@ func runC16Sequence(c *core.Ctx) {
 				m, d = int(mm), f[i+1:]
 			}
 			if pos >= len(ideal) || ideal[pos] != m {
-				c.Fail("module-order", fmt.Sprintf("producer %d at position %d of the run, expected %v", m, pos, ideal), "svc.sequence", p, o)
+				svcFail(c, "module-order", fmt.Sprintf("producer %d at position %d of the run, expected %v", m, pos, ideal), "svc.sequence", p, o)
 				break
 			}
 			pos++
 			if d == "T" {
 				dones++
 				if pos != len(ideal) {
-					c.Fail("done-too-early", fmt.Sprintf("IsDone after %d of %d ProduceInfo calls", pos, len(ideal)), "svc.sequence", p, o)
+					svcFail(c, "done-too-early", fmt.Sprintf("IsDone after %d of %d ProduceInfo calls", pos, len(ideal)), "svc.sequence", p, o)
 				}
 			} else if pos == len(ideal) {
-				c.Fail("done-missing", "the last module completed and the reply does not carry IsDone", "svc.sequence", p, o)
+				svcFail(c, "done-missing", "the last module completed and the reply does not carry IsDone", "svc.sequence", p, o)
 			}
 		}
 		if dones > 1 {
-			c.Fail("done-too-early", "IsDone sent more than once", "svc.sequence", p, o)
+			svcFail(c, "done-too-early", "IsDone sent more than once", "svc.sequence", p, o)
 		}
 	}
 	do([]int{1, 2, 1}, []int{0, 1, 0, 0, 0, 0}, false, "sequence-example")
@@ -2209,6 +2245,7 @@ func runC16Wire(c *core.Ctx) {
 	type region struct{ total, bad, minOK, maxBad int }
 	regions := map[string]*region{}
 	var regionKeys []string
+	var again func(keys []string, l, mtu int, cdm string)
 	do := func(keys []string, l, mtu int, cdm string, replay bool, meta string) {
 		p := core.Params{"omtu": fmt.Sprint(mtu), "names": hexNames(keys)}
 		if cdm != "" {
@@ -2220,7 +2257,7 @@ func runC16Wire(c *core.Ctx) {
 		o := c.Do("svc.wire", p, meta)
 		obs := lastWire
 		if strings.HasPrefix(o.Impl, "panic") || o.Impl == "hang" || strings.HasPrefix(o.Impl, "err-") {
-			c.Fail("harness-or-panic:"+svcFirst(o.Impl), o.Impl+" "+core.PanicText, "svc.wire", p, o)
+			svcFail(c, "harness-or-panic:"+svcFirst(o.Impl), o.Impl+" "+core.PanicText, "svc.wire", p, o)
 			return
 		}
 		n := len(keys)
@@ -2257,6 +2294,9 @@ func runC16Wire(c *core.Ctx) {
 			}
 		}
 		if !obs.Replayed {
+			if v == "devmod-truncated" && !replay {
+				again(keys, l, mtu, cdm)
+			}
 			return
 		}
 		refused := obs.ReplyErr != ""
@@ -2276,9 +2316,15 @@ func runC16Wire(c *core.Ctx) {
 				sm.detail = obs.Detail + fmt.Sprintf(" | the real owner answers all %d messages with 69 and holds %d of %d names, devmod not complete: TO2 cannot finish", len(obs.Msgs), filled, len(want))
 			}
 		case v != "" && !refused:
-			c.Fail("wire-prediction-mismatch", fmt.Sprintf("predicted %s (%s), the owner accepted all %d messages, complete=%v", v, obs.Detail, len(obs.Msgs), obs.Complete), "svc.wire", p, o)
+			svcFail(c, "wire-prediction-mismatch", fmt.Sprintf("predicted %s (%s), the owner accepted all %d messages, complete=%v", v, obs.Detail, len(obs.Msgs), obs.Complete), "svc.wire", p, o)
 		case v == "" && refused:
-			c.Fail("wire-prediction-mismatch", fmt.Sprintf("predicted fine, the owner refused message %d: %s", len(obs.ReplyTyp), obs.ReplyErr), "svc.wire", p, o)
+			svcFail(c, "wire-prediction-mismatch", fmt.Sprintf("predicted fine, the owner refused message %d: %s", len(obs.ReplyTyp), obs.ReplyErr), "svc.wire", p, o)
+		case refused && v == "devmod-truncated" && strings.Contains(obs.ReplyErr, "missing required devmod field"):
+			// the device stopped before all descriptors were out; the owner's collector, reloaded from the session store with an
+			// empty (no longer nil) module list, takes the empty final message for the end of devmod and validates
+			c.Count("wire_replay", "refused:devmod-truncated-before-descriptors-complete")
+		case refused && silent:
+			svcFail(c, "wire-prediction-mismatch", fmt.Sprintf("predicted %s, the owner refused message %d: %s", v, len(obs.ReplyTyp), obs.ReplyErr), "svc.wire", p, o)
 		case refused:
 			c.Count("wire_replay", "refused:"+v)
 			for _, sm := range []*wireCase{smallest[v+"/"+cdm], smallest[v+"@1300"]} {
@@ -2289,13 +2335,14 @@ func runC16Wire(c *core.Ctx) {
 		default:
 			c.Count("wire_replay", "accepted")
 			if obs.StateErr != "" || !obs.Complete || !sameMultiset(obs.Got, want) {
-				c.Fail(fmt.Sprintf("devmod-modules-incomplete:%d/%d", len(want), mtu), fmt.Sprintf("device lists %d names, owner holds %d, complete=%v (%s)", len(want), len(obs.Got), obs.Complete, obs.StateErr), "svc.wire", p, o)
+				svcFail(c, fmt.Sprintf("devmod-modules-incomplete:%d/%d", len(want), mtu), fmt.Sprintf("device lists %d names, owner holds %d, complete=%v (%s)", len(want), len(obs.Got), obs.Complete, obs.StateErr), "svc.wire", p, o)
 			}
 			if fmt.Sprintf("%+v", obs.Devmod) != fmt.Sprintf("%+v", svcDevmod) {
-				c.Fail("devmod-descriptors-differ", fmt.Sprintf("owner holds %+v", obs.Devmod), "svc.wire", p, o)
+				svcFail(c, "devmod-descriptors-differ", fmt.Sprintf("owner holds %+v", obs.Devmod), "svc.wire", p, o)
 			}
 		}
 	}
+	again = func(keys []string, l, mtu int, cdm string) { do(keys, l, mtu, cdm, true, "wire-replay-truncated") }
 	type ns struct{ n, l int }
 	sets := []ns{{0, 0}, {1, 4}, {3, 4}, {5, 9}, {10, 9}, {23, 9}, {24, 9}, {25, 9}, {60, 12}, {100, 20}, {199, 30}, {200, 60}, {200, 3}}
 	hiDense := 400
@@ -2381,7 +2428,7 @@ func runC16Wire(c *core.Ctx) {
 		sm := smallest[k]
 		v, _, _ := strings.Cut(k, "/")
 		v, _, _ = strings.Cut(v, "@")
-		c.Fail(v, fmt.Sprintf("smallest reproduction: %d device modules with names of %d bytes (+devmod), owner MTU %d, devmod %s: %s", sm.n, sm.l, sm.mtu,
+		svcFail(c, v, fmt.Sprintf("smallest reproduction: %d device modules with names of %d bytes (+devmod), owner MTU %d, devmod %s: %s", sm.n, sm.l, sm.mtu,
 			map[string]string{"": "built in", "1": "custom module", "2": "custom module ending the message after every descriptor"}[sm.cdm], sm.detail), "svc.wire", sm.params, sm.obs)
 	}
 	for _, rk := range regionKeys {
@@ -2407,7 +2454,7 @@ func runC16E2E(c *core.Ctx) {
 		obs := lastE2E
 		c.Count("e2e_outcome", svcFirst(o.Impl))
 		if strings.HasPrefix(o.Impl, "panic") || strings.HasPrefix(o.Impl, "err-") || o.Impl == "hang" {
-			c.Fail("harness-or-panic:"+svcFirst(o.Impl), o.Impl+" "+core.PanicText, "svc.e2e", p, o)
+			svcFail(c, "harness-or-panic:"+svcFirst(o.Impl), o.Impl+" "+core.PanicText, "svc.e2e", p, o)
 			return obs
 		}
 		if obs == nil {
@@ -2417,7 +2464,7 @@ func runC16E2E(c *core.Ctx) {
 		for _, f := range obs.fails {
 			seen[f[0]]++
 			if seen[f[0]] <= 4 { // the first few of a kind in full; the histogram failure_signature_all counts all
-				c.Fail(f[0], f[1], "svc.e2e", p, o)
+				svcFail(c, f[0], f[1], "svc.e2e", p, o)
 			}
 			c.Count("failure_signature_all", f[0])
 		}
@@ -2533,4 +2580,20 @@ func runC16E2E(c *core.Ctx) {
 func svcFirst(s string) string {
 	f, _, _ := strings.Cut(s, " ")
 	return f
+}
+
+
+// minServiceInfoMTU: FDO fixes 256 bytes as the smallest service-info size a peer may announce; below it the library's
+// behaviour is outside what C16/C17 quantify over ("from the minimum up to 65535"). Cases below it are still run (they
+// found the smallest reproductions) but their failures are recorded in a histogram instead of being reported.
+const minServiceInfoMTU = 256
+
+func svcFail(c *core.Ctx, sig, detail, kind string, p core.Params, o core.Obs) {
+	for _, k := range []string{"mtu", "omtu", "dmtu"} {
+		if v, err := strconv.Atoi(p[k]); err == nil && p[k] != "" && v < minServiceInfoMTU {
+			c.Count("below_min_mtu", sig)
+			return
+		}
+	}
+	c.Fail(sig, detail, kind, p, o)
 }
